@@ -327,6 +327,95 @@ impl Object for ObjMap {
     }
 }
 
+/// user formatting code that uses every way of writing to a `fmt::Formatter`
+#[derive(Debug)]
+struct ObjWriter;
+impl Object for ObjWriter {
+    fn render(self: &Arc<Self>, f: &mut fmt::Formatter<'_>) -> fmt::Result {
+        use fmt::Write;
+        f.write_str("[s]")?;
+        f.write_char('c')?;
+        f.write_char('ñ')?;
+        write!(f, "literal only")?;
+        write!(f, "{}-{}", 1, "two")?;
+        f.write_fmt(format_args!("fmt-lit"))?;
+        f.write_fmt(format_args!("{:>3}", 9))?;
+        f.pad("pad")?;
+        write!(f, "{}", UserDisp)
+    }
+}
+
+struct UserDisp;
+impl fmt::Display for UserDisp {
+    fn fmt(&self, f: &mut fmt::Formatter<'_>) -> fmt::Result {
+        f.write_fmt(format_args!("nested"))?;
+        f.pad("p")?;
+        f.write_str("<d>")?;
+        write!(f, "lit")
+    }
+}
+
+thread_local! {
+    /// which way of writing the user formatter uses for its next call (reset before every render)
+    static UCOUNT: std::cell::Cell<usize> = const { std::cell::Cell::new(0) };
+}
+
+/// A user formatter (`Environment::set_formatter`) that writes a marker before every value, cycling
+/// through every way user code can write to an `Output`: the inherent `write_str`/`write_fmt`
+/// (`write!` with a literal only, with arguments, `format_args!`), the `fmt::Write` trait methods
+/// (`write_str`, `write_char`, `write_fmt`), padding, nested `Display` impls; `none` is printed as a
+/// literal `null`; everything else is then handed to the default formatter.
+fn user_formatter(out: &mut minijinja::Output, state: &mut State, value: &Value) -> Result<(), Error> {
+    let k = UCOUNT.with(|c| {
+        let k = c.get();
+        c.set(k + 1);
+        k
+    });
+    match k % 10 {
+        0 => write!(out, "lit0")?,
+        1 => out.write_fmt(format_args!("lit1"))?,
+        2 => fmt::Write::write_fmt(out, format_args!("lit2"))?,
+        3 => write!(out, "a{}b", 3)?,
+        4 => out.write_str("lit4")?,
+        5 => fmt::Write::write_str(out, "lit5")?,
+        6 => {
+            fmt::Write::write_char(out, 'é')?;
+            fmt::Write::write_char(out, 'x')?;
+        }
+        7 => write!(out, "{:>4}|{:<3}|", 7, "p")?,
+        8 => write!(out, "{}", UserDisp)?,
+        _ => {
+            write!(out, "x")?;
+            write!(out, "y")?;
+            out.write_fmt(format_args!("z"))?;
+        }
+    }
+    if value.is_none() {
+        write!(out, "null")?;
+        return Ok(());
+    }
+    minijinja::escape_formatter(out, state, value)
+}
+
+/// 0: default formatter, 1: a formatter that only defers to the default one, 2: `user_formatter`
+fn fmt_mode(api: &str) -> u8 {
+    if api == "fmt" {
+        1
+    } else if api == "ufmt" || api.starts_with("ublock:") {
+        2
+    } else {
+        0
+    }
+}
+
+fn is_full(api: &str) -> bool {
+    api == "full" || api == "fmt" || api == "ufmt"
+}
+
+fn block_of(api: &str) -> Option<&str> {
+    api.strip_prefix("block:").or_else(|| api.strip_prefix("ublock:"))
+}
+
 fn base_ctx() -> std::collections::BTreeMap<String, Value> {
     let big: Vec<String> = (0..40).map(|i| if i % 7 == 3 { format!("s{i}<&") } else { format!("s{i}") }).collect();
     let bigstr = "lorem <ipsum> & 'dolor' ".repeat(120);
@@ -369,6 +458,7 @@ fn base_ctx() -> std::collections::BTreeMap<String, Value> {
     put("obj_chars", Value::from_object(ObjChars));
     put("obj_seq", Value::from_object(ObjSeq));
     put("obj_map", Value::from_object(ObjMap));
+    put("obj_w", Value::from_object(ObjWriter));
     put("safe_html", Value::from_safe_string("<i>safe & sound</i>".into()));
     put("small_safe", Value::from_safe_string("<s>".into()));
     put("neg_str", Value::from("-42"));
@@ -429,6 +519,8 @@ struct Prog {
     /// structured family: wire form of the program as a `Prog` term, expected `flat=` verdict
     psyn: Option<(String, &'static str)>,
     cfg: EnvCfg,
+    /// also run with the user formatter installed (APIs `ufmt`, `ublock:<b>`)
+    user_writer: bool,
 }
 
 fn pc(pid: &str, main: &str, templates: &[(&str, &str)], cfg: EnvCfg) -> Prog {
@@ -444,6 +536,7 @@ fn p(pid: &str, main: &str, templates: &[(&str, &str)], blocks: &[&str], fn_bloc
         fn_blocks: fn_blocks.iter().map(|s| s.to_string()).collect(),
         psyn: None,
         cfg: EnvCfg::default(),
+        user_writer: true,
     }
 }
 
@@ -518,6 +611,8 @@ fn fixed_programs() -> Vec<Prog> {
                                  ("child.txt", "{% extends \"base.txt\" %}{% block body %}[{{ super() }}]{% include \"inc.txt\" %}{% endblock %}"),
                                  ("inc.txt", "<inc {{ name }}>\n")], EnvCfg { loader: true, debug_off: true, ..Default::default() }),
         pc("f45", "m.html", &[("m.html", "  {% if flag %}\n  x {{ html }}\n  {% endif %}\nlast\n")], EnvCfg { trim_blocks: true, keep_trailing_newline: true, auto_escape: 1, ..Default::default() }),
+        p("f47", "w.txt", &[("w.txt", "{{ obj_w }}|{{ none }}|{% set x %}{{ obj_w }}{{ none }}{% endset %}{{ x }}|{% filter upper %}{{ obj_w }}{% endfilter %}{% for i in items %}{{ none }}{{ i }}{% endfor %}")], &[], &[]),
+        p("f48", "w.html", &[("w.html", "{{ obj_w }}|{{ none }}|{{ html }}{% include \"wi.html\" %}"), ("wi.html", "{{ none }}<{{ name }}>{{ none }}")], &[], &[]),
         pc("f46", "m.txt", &[("m.txt", "{% for i in range(3) %}{{ i }}{% include \"x.txt\" %}{% endfor %}"), ("x.txt", "({{ loop.index }})")], EnvCfg { fuel: Some(1_000_000), loader: true, ..Default::default() }),
     ]
 }
@@ -762,7 +857,7 @@ fn gen_program(seed: u64, index: u64) -> Prog {
             keep_trailing_newline: crng.chance(1, 5),
         }
     };
-    Prog { pid: format!("g{seed}_{index}"), templates, main, blocks, fn_blocks: vec![], psyn: None, cfg }
+    Prog { pid: format!("g{seed}_{index}"), templates, main, blocks, fn_blocks: vec![], psyn: None, cfg, user_writer: false }
 }
 
 // ----- structured family: programs generated as terms of the model's `Prog` layer and unparsed
@@ -1021,7 +1116,7 @@ fn gen_structured(seed: u64, index: u64) -> Prog {
     // a macro renders into its own Output: its capture is not among the root's operations
     // (`any`: the call may not be reached, so both verdicts occur)
     let expect = if g.macros.is_empty() { "same" } else { "any" };
-    Prog { pid: format!("s{seed}_{index}"), templates, main: "main.txt".into(), blocks: vec![], fn_blocks: vec![], psyn: Some((w, expect)), cfg: EnvCfg::default() }
+    Prog { pid: format!("s{seed}_{index}"), templates, main: "main.txt".into(), blocks: vec![], fn_blocks: vec![], psyn: Some((w, expect)), cfg: EnvCfg::default(), user_writer: false }
 }
 
 // ------------------------------------------------------------------------------------------ running
@@ -1063,13 +1158,15 @@ fn emit_block(state: &mut State, name: String) -> Result<String, Error> {
     }
 }
 
-fn make_env(prog: &Prog, formatter: bool) -> Result<Environment<'static>, Error> {
+fn make_env(prog: &Prog, formatter: u8) -> Result<Environment<'static>, Error> {
     let mut env = Environment::new();
     let cfg = &prog.cfg;
     // settings first: templates are compiled (syntax, whitespace, initial auto-escape) when added
     env.add_function("emit_block", emit_block);
-    if formatter {
-        env.set_formatter(|out, state, value| minijinja::escape_formatter(out, state, value));
+    match formatter {
+        1 => env.set_formatter(|out, state, value| minijinja::escape_formatter(out, state, value)),
+        2 => env.set_formatter(user_formatter),
+        _ => {}
     }
     env.set_fuel(cfg.fuel);
     env.set_undefined_behavior(match cfg.undefined {
@@ -1274,16 +1371,18 @@ fn run_api(env: &Environment<'static>, prog: &Prog, api: &str, script: Vec<Beh>,
     let mut probe = Probe::new(script, keep_chunks);
     probe.flush_err = flush_err;
     let mut outer = "-".to_string();
-    let result: Result<Result<(), Error>, String> = if api == "full" || api == "fmt" {
+    UCOUNT.with(|c| c.set(0));
+    let result: Result<Result<(), Error>, String> = if is_full(api) {
         guarded(|| {
             let tmpl = env.get_template(&prog.main)?;
             vh::start();
             tmpl.render_captured_to(ctx(), &mut probe).map(|_| ())
         })
-    } else if let Some(block) = api.strip_prefix("block:") {
+    } else if let Some(block) = block_of(api) {
         guarded(|| {
             let tmpl = env.get_template(&prog.main)?;
             let mut captured = tmpl.render_captured(ctx())?;
+            UCOUNT.with(|c| c.set(0));
             captured.with_state_mut(|state| {
                 vh::start();
                 state.render_block_to_write(block, &mut probe)
@@ -1332,16 +1431,18 @@ fn run_api(env: &Environment<'static>, prog: &Prog, api: &str, script: Vec<Beh>,
 /// the string the plain render of the same API returns (None: it fails) and its operation log
 fn reference(env: &Environment<'static>, prog: &Prog, api: &str) -> (Option<String>, Vec<String>, bool) {
     let mut fn_mode = false;
-    let r: Result<Result<String, Error>, String> = if api == "full" || api == "fmt" {
+    UCOUNT.with(|c| c.set(0));
+    let r: Result<Result<String, Error>, String> = if is_full(api) {
         guarded(|| {
             let tmpl = env.get_template(&prog.main)?;
             vh::start();
             tmpl.render(ctx())
         })
-    } else if let Some(block) = api.strip_prefix("block:") {
+    } else if let Some(block) = block_of(api) {
         guarded(|| {
             let tmpl = env.get_template(&prog.main)?;
             let mut captured = tmpl.render_captured(ctx())?;
+            UCOUNT.with(|c| c.set(0));
             captured.with_state_mut(|state| {
                 vh::start();
                 state.render_block(block)
@@ -1492,8 +1593,14 @@ fn scripts_for(w: usize, total: usize, rng: &mut Rng, tier: &str, with_panic: bo
 
 fn apis_of(prog: &Prog) -> Vec<String> {
     let mut v = vec!["full".to_string(), "fmt".to_string()];
+    if prog.user_writer {
+        v.push("ufmt".to_string());
+    }
     for b in &prog.blocks {
         v.push(format!("block:{b}"));
+        if prog.user_writer {
+            v.push(format!("ublock:{b}"));
+        }
     }
     for b in &prog.fn_blocks {
         v.push(format!("fn:{b}"));
@@ -1506,7 +1613,7 @@ fn run_program(prog: &Prog, tier: &str, seed: u64, out: &mut impl io::Write, emi
         // the random scripts of a program depend on the seed and the program only (subset runs line up)
         let h = format!("{} {}", prog.pid, api).bytes().fold(0xcbf29ce484222325u64, |h, b| (h ^ b as u64).wrapping_mul(0x100000001b3));
         let rng = &mut Rng::new(seed ^ h);
-        let env = match make_env(prog, api == "fmt") {
+        let env = match make_env(prog, fmt_mode(&api)) {
             Ok(env) => env,
             Err(e) => {
                 writeln!(out, "skip\t{} {}\tcompile:{:?}", prog.pid, api, e.kind()).unwrap();
@@ -1738,7 +1845,9 @@ fn main() {
             }
             let n = if tier == "thorough" { 1500 } else { 300 } / if sub { 3 } else { 1 };
             for i in 0..n {
-                let prog = gen_program(seed, i);
+                let mut prog = gen_program(seed, i);
+                // the third of the generated programs that the unhooked build runs too
+                prog.user_writer = i < (if tier == "thorough" { 1500 } else { 300 }) / 3;
                 run_program(&prog, &tier, seed, &mut out, &mut emits);
             }
             let n = if tier == "thorough" { 1500 } else { 300 } / if sub { 3 } else { 1 };
@@ -1761,7 +1870,7 @@ fn main() {
             for (name, src) in &prog.templates {
                 writeln!(out, "# template {name}: {src:?}").unwrap();
             }
-            let env = make_env(&prog, api == "fmt").expect("compile");
+            let env = make_env(&prog, fmt_mode(api)).expect("compile");
             let clean = run_api(&env, &prog, api, vec![], true, false);
             let (refstr, _, _) = reference(&env, &prog, api);
             writeln!(out, "# plain render: {:?}", refstr).unwrap();
